@@ -607,7 +607,8 @@ def oracleC06 (c : Case) : Option (List String) :=
   let dims := (List.range k).map fun i => c.ints.getD i 0
   let offs : List Nat := (List.range k).map fun i => (((List.range i).map fun j => 2 * dims.getD j 0 + 1).foldl (· + ·) 0)
   let ops := (List.range k).map fun i => opinionAt xs (offs.getD i 0) (dims.getD i 0)
-  if !(ops.all fun w => wfOpinion 0 w.1 w.2.1 w.2.2) then none else
+  let exactWf := ops.all fun w => wfOpinion 0 w.1 w.2.1 w.2.2
+  if !(ops.all fun w => wfOpinion (4 * c.eps) w.1 w.2.1 w.2.2) then none else
   -- a rejection by rounding residue is C19's business, not C06's
   if c.cls == "panic" && isResidue c then none else
   let τ := tauSpec c.fmt * 16
@@ -619,6 +620,10 @@ def oracleC06 (c : Case) : Option (List String) :=
   let N := P.length
   withValue c "C06" fun out =>
     let (b, u, a) := opinionAt out 0 N
+    -- operands that are well-formed only within the constructors' tolerance (arbitrary floats): the result must still be a
+    -- well-formed opinion with the outer-product base rate; the exact identities are only checked on exactly well-formed operands
+    if !exactWf then
+      check "C06.wf" (wfOpinion (τ * (N + 1)) b u a) ++ check "C06.outer_base_rate" (closeList τ a A) else
     if A.any (fun v => decide (0 < v) && decide (v ≤ c.eps)) then
       check "C06.wf" (wfOpinion (τ * (N + 1)) b u a) ++ check "C06.outer_base_rate" (closeList τ a A) else
     let uhat := (List.zip (List.zip P B) A).foldl
